@@ -18,15 +18,18 @@ def faults(m, meta):
 
     class Foo(Renderable):
         FIN = {}
-        def __init__(self, n, fail_at=None, exc=Boom, stop_after=None):
+        KEEP = []
+        def __init__(self, n, fail_at=None, exc=Boom, stop_after=None, keep=True):
             super().__init__(n, 1)
+            self.keep = keep
             self.calls, self.fail_at, self.exc, self.created, self.stop_after, self.used_after_fin = 0, fail_at, exc, [], stop_after, 0
-            Foo.FIN.clear()
         def _get_render_size_(self):
             return Size(2, 2)
         def _get_render_data_(self, *, iteration):
             rd = super()._get_render_data_(iteration=iteration)
-            self.created.append(rd)
+            if self.keep:
+                Foo.KEEP.append(rd)          # kept alive to the end of the replay: ids are reused once an object is gone
+            self.created.append(id(rd))
             return rd
         def _render_(self, rd, ra):
             if rd.finalized:
@@ -45,8 +48,8 @@ def faults(m, meta):
 
     def check(r, label):
         gc.collect()
-        for rd in r.created:
-            n = Foo.FIN.get(id(rd), 0)
+        for rid in r.created:
+            n = Foo.FIN.get(rid, 0)
             if n != 1:
                 problems.append({"scenario": label, "finalize_calls": n})
         if r.used_after_fin:
@@ -74,7 +77,9 @@ def faults(m, meta):
                     finally:
                         sys.stdout = old
                     check(r, ("draw", n, exc.__name__, k, loops))
-    r = Foo(3)
+    # size validation fails inside draw(): the data is referenced by nothing but the dying frames and is finalized when it is
+    # garbage-collected (no reference is kept here, and nothing else is allocated before the count is read)
+    r = Foo(3, keep=False)
     try:
         r.draw(padding=ExactPadding(left=500))
     except Exception:
